@@ -6,7 +6,7 @@
    defect class "decrypt strips trailing zeros" (switch ADAPTER_STRIPS) lives there.
    Scenario steps: NewFile, AddBlock, Write (draws ephemerals), Read(decryptors), Splice, Rewrite. *)
 EXTENDS Naturals, Sequences, FiniteSets, TLC
-CONSTANTS ADAPTER_STRIPS, ECC_FALLBACK_SEL0, POINT_CHECK_OFF, MaxFiles, MaxWrites
+CONSTANTS ADAPTER_STRIPS, ECC_FALLBACK_SEL0, POINT_CHECK_OFF, MaxFiles, MaxWrites, MaxBlocks
 VARIABLES drawn,      \* number of nonces handed out so far (nonce ids 1..drawn)
           files,      \* seq of [key, explicit, blocks]         blocks: seq of block specs
           hdrs,       \* seq of [fid, packed]                    packed: seq of [tag, raw]
@@ -97,7 +97,7 @@ NewFileRandom == /\ Len(files) < MaxFiles /\ hdrs = <<>>
                  /\ drawn' = drawn + 1 /\ freshlog' = Append(freshlog, drawn + 1)
                  /\ files' = Append(files, [key |-> NonceKey(drawn + 1), explicit |-> FALSE, blocks |-> <<>>])
                  /\ UNCHANGED <<hdrs, reads>>
-AddBlock == /\ hdrs = <<>> /\ Len(files) > 0
+AddBlock == /\ hdrs = <<>> /\ Len(files) > 0 /\ Len(files[Len(files)].blocks) < MaxBlocks
             /\ LET f == Len(files) IN \E b \in BlockSpecs :
                  /\ \A j \in 1..Len(files[f].blocks) : files[f].blocks[j].kind # b.kind       \* auth_blocks is a dict by tag
                  /\ files' = [files EXCEPT ![f].blocks = Append(@, b)]
